@@ -25,6 +25,7 @@ import (
 	"sort"
 	"strings"
 
+	"github.com/goplus/llgo/internal/goembed"
 	"go.yaml.in/yaml/v3"
 )
 
@@ -135,11 +136,35 @@ type packageSection struct {
 	GoFiles     []fileDigest     `yaml:"go_files,omitempty"`
 	AltGoFiles  []fileDigest     `yaml:"alt_go_files,omitempty"`
 	OtherFiles  []fileDigest     `yaml:"other_files,omitempty"`
+	EmbedFiles  []embedDigest    `yaml:"embed_files,omitempty"`
 	RewriteVars orderedStringMap `yaml:"rewrite_vars,omitempty"`
 }
 
 func (s *packageSection) empty() bool {
-	return s.PkgPath == "" && s.PkgID == "" && len(s.GoFiles) == 0 && len(s.AltGoFiles) == 0 && len(s.OtherFiles) == 0 && len(s.RewriteVars) == 0
+	return s.PkgPath == "" && s.PkgID == "" && len(s.GoFiles) == 0 && len(s.AltGoFiles) == 0 && len(s.OtherFiles) == 0 && len(s.EmbedFiles) == 0 && len(s.RewriteVars) == 0
+}
+
+// embedDigest identifies the content a //go:embed variable was given.
+type embedDigest struct {
+	Var  string `yaml:"var"`
+	Name string `yaml:"name"`
+	Hash string `yaml:"hash"`
+}
+
+func digestEmbedFiles(vars goembed.VarMap) []embedDigest {
+	var ret []embedDigest
+	for name, v := range vars {
+		for _, f := range v.Files {
+			ret = append(ret, embedDigest{Var: name, Name: f.Name, Hash: digestBytes(f.Data)})
+		}
+	}
+	sort.Slice(ret, func(i, j int) bool {
+		if ret[i].Var != ret[j].Var {
+			return ret[i].Var < ret[j].Var
+		}
+		return ret[i].Name < ret[j].Name
+	})
+	return ret
 }
 
 // manifestBuilder builds manifest text with sorted sections.
